@@ -21,6 +21,9 @@ pub struct LayerCase {
     pub default_imperial: Option<bool>,
     /// new size (index into SIZES) of the base units gram, liter, meter; None = untouched
     pub resize: [Option<u8>; 3],
+    /// a third layer resizes them again (the later layer wins)
+    #[serde(default)]
+    pub resize_again: [Option<u8>; 3],
     /// the extend entry addresses the base by 0 its symbol, 1 its first name
     pub by_name: bool,
     pub unit_a: u8,
@@ -36,6 +39,8 @@ const BASES: [(&str, &str); 3] = [("g", "gram"), ("l", "liter"), ("m", "meter")]
 const PREFIX: [(&str, &str, f64); 6] = [("k", "kilo", 1e3), ("h", "hecto", 1e2), ("da", "deca", 1e1), ("d", "deci", 1e-1), ("c", "centi", 1e-2), ("m", "milli", 1e-3)];
 /// units without a system declared by the layer: (quantity, name, symbol, size)
 const UNSPECIFIED: [(&str, &str, &str, f64); 3] = [("mass", "momme", "mom", 3.75), ("volume", "go", "gō", 0.1804), ("length", "shaku", "sk", 0.303)];
+/// units declared with names only, no symbol (legal: pinch, dash, stick ...)
+const NAMED_ONLY: [(&str, &str, f64); 4] = [("volume", "pinch", 0.0003), ("volume", "dash", 0.0006), ("mass", "stick", 113.0), ("mass", "knob", 15.0)];
 
 struct Entry {
     key: String,
@@ -60,20 +65,37 @@ fn layer_toml(c: &LayerCase) -> String {
         }
     }
     for (q, name, sym, size) in UNSPECIFIED {
-        s.push_str(&format!("[[quantity]]\nquantity = \"{q}\"\n[quantity.units]\nunspecified = [ {{ names = [\"{name}\"], symbols = [\"{sym}\"], ratio = {size:?} }} ]\n"));
+        let named: Vec<String> = NAMED_ONLY.iter().filter(|(nq, _, _)| *nq == q).map(|(_, n, r)| format!("{{ names = [\"{n}\"], symbols = [], ratio = {r:?} }}")).collect();
+        s.push_str(&format!("[[quantity]]\nquantity = \"{q}\"\n[quantity.units]\nunspecified = [ {{ names = [\"{name}\"], symbols = [\"{sym}\"], ratio = {size:?} }}, {} ]\n", named.join(", ")));
     }
     s
+}
+
+/// a further layer holding only an extend table
+fn second_layer_toml(c: &LayerCase) -> Option<String> {
+    if c.resize_again.iter().all(|r| r.is_none()) {
+        return None;
+    }
+    let mut s = String::from("[extend.units]\n");
+    for (i, r) in c.resize_again.iter().enumerate() {
+        if let Some(r) = r {
+            let key = if c.by_name { BASES[i].0 } else { BASES[i].1 };
+            s.push_str(&format!("{key} = {{ ratio = {:?} }}\n", SIZES[*r as usize % SIZES.len()]));
+        }
+    }
+    Some(s)
 }
 
 fn build(c: &LayerCase) -> Result<Converter, String> {
     let text = std::fs::read_to_string(repo_dir().join("units.toml")).map_err(|e| format!("cannot read units.toml: {e}"))?;
     let base: UnitsFile = toml::from_str(&text).map_err(|e| format!("units.toml: {e}"))?;
     let layer: UnitsFile = toml::from_str(&layer_toml(c)).map_err(|e| format!("generated layer: {e}\n{}", layer_toml(c)))?;
-    ConverterBuilder::new()
-        .with_units_file(base)
-        .and_then(|b| b.with_units_file(layer))
-        .and_then(|b| b.finish())
-        .map_err(|e| format!("the builder rejects the generated layer: {e}\n{}", layer_toml(c)))
+    let mut b = ConverterBuilder::new().with_units_file(base).and_then(|b| b.with_units_file(layer)).map_err(|e| format!("the builder rejects the generated layer: {e}\n{}", layer_toml(c)))?;
+    if let Some(t) = second_layer_toml(c) {
+        let l2: UnitsFile = toml::from_str(&t).map_err(|e| format!("generated second layer: {e}\n{t}"))?;
+        b = b.with_units_file(l2).map_err(|e| format!("the builder rejects the second layer: {e}\n{t}"))?;
+    }
+    b.finish().map_err(|e| format!("the builder rejects the generated layers: {e}\n{}", layer_toml(c)))
 }
 
 /// the units the cases draw from, with their expected definitions under the layer
@@ -82,7 +104,7 @@ fn entries(c: &LayerCase) -> Vec<Entry> {
     let qs = [Mass, Volume, Length];
     let mut out = vec![];
     for (i, (sym, name)) in BASES.iter().enumerate() {
-        let base = c.resize[i].map_or(1.0, |r| SIZES[r as usize % SIZES.len()]);
+        let base = c.resize_again[i].or(c.resize[i]).map_or(1.0, |r| SIZES[r as usize % SIZES.len()]);
         out.push(Entry { key: sym.to_string(), quantity: qs[i], size: base, system: Some(System::Metric) });
         out.push(Entry { key: format!("{name}s"), quantity: qs[i], size: base, system: Some(System::Metric) });
         for (ps, pn, f) in PREFIX {
@@ -94,6 +116,9 @@ fn entries(c: &LayerCase) -> Vec<Entry> {
     for k in ["oz", "lb", "cup", "tsp", "tbsp", "gal", "in", "ft"] {
         let u = BUNDLED.find_unit(k).expect("bundled imperial unit");
         out.push(Entry { key: k.to_string(), quantity: u.physical_quantity, size: u.ratio, system: u.system });
+    }
+    for (q, name, size) in NAMED_ONLY {
+        out.push(Entry { key: name.to_string(), quantity: if q == "volume" { Volume } else { Mass }, size, system: None });
     }
     for (i, (_, name, sym, size)) in UNSPECIFIED.iter().enumerate() {
         out.push(Entry { key: sym.to_string(), quantity: qs[i], size: *size, system: None });
@@ -115,9 +140,11 @@ pub fn check(c: &LayerCase, st: &mut Stats) -> Verdict {
     let same: Vec<&Entry> = es.iter().filter(|e| e.quantity == a.quantity).collect();
     let b = same[c.unit_b as usize % same.len()];
     let (s, e) = (f64::from_bits(c.start_bits), c.end_bits.map(f64::from_bits));
-    let ctx = || format!("layer\n{}", layer_toml(c));
+    let ctx = || format!("layer\n{}{}", layer_toml(c), second_layer_toml(c).map(|t| format!("\nnext layer\n{t}")).unwrap_or_default());
     st.nontrivial(&serde_json::to_string(c).unwrap());
     st.class_if(c.resize.iter().any(|r| r.is_some()), "base unit resized by an extend entry");
+    st.class_if((0..3).any(|i| c.resize[i].is_some() && c.resize_again[i].is_some()), "base unit resized by two layers");
+    st.class_if(a.system.is_none() && NAMED_ONLY.iter().any(|(_, n, _)| *n == a.key), "unit without a symbol");
     st.class_if(c.default_imperial == Some(true), "default system imperial");
     st.class_if(a.system.is_none(), "unit without a system");
     // the unit table itself: every key resolves, prefixed units follow their base
@@ -225,6 +252,7 @@ pub fn strategy() -> impl Strategy<Value = LayerCase> {
     (
         proptest::option::weighted(0.7, any::<bool>()),
         proptest::array::uniform3(proptest::option::weighted(0.4, 0u8..4)),
+        proptest::array::uniform3(proptest::option::weighted(0.25, 0u8..4)),
         any::<bool>(),
         any::<u8>(),
         any::<u8>(),
@@ -232,9 +260,10 @@ pub fn strategy() -> impl Strategy<Value = LayerCase> {
         proptest::option::weighted(0.3, val),
         0u8..5,
     )
-        .prop_map(|(default_imperial, resize, by_name, unit_a, unit_b, s, e, op)| LayerCase {
+        .prop_map(|(default_imperial, resize, resize_again, by_name, unit_a, unit_b, s, e, op)| LayerCase {
             default_imperial,
             resize,
+            resize_again,
             by_name,
             unit_a,
             unit_b,
@@ -248,7 +277,7 @@ pub fn run_part(run: &mut Run, tier: Tier) {
     run_prop(
         run,
         "layered",
-        "converters built from units.toml plus a generated layer (default system named or not, gram / liter / meter resized through [extend.units] by symbol or name, three units without a system): every SI-prefixed key is its base times the prefix factor, conversions between any two units of a quantity give the amount the layers define, Converter::convert(SameSystem) / fit / convert(system) pick a unit from the list of the unit's system or, for a unit without one, of the converter's default system, and keep the amount (relative 1e-9); every case is non-trivial",
+        "converters built from units.toml plus a generated layer (default system named or not, gram / liter / meter resized through [extend.units] by symbol or name, possibly again by a further layer, three units without a system and four units without a symbol): every SI-prefixed key is its base times the prefix factor, conversions between any two units of a quantity give the amount the layers define, Converter::convert(SameSystem) / fit / convert(system) pick a unit from the list of the unit's system or, for a unit without one, of the converter's default system, and keep the amount (relative 1e-9); every case is non-trivial",
         strategy,
         tier.pick(6_000, 400_000),
         |c: &LayerCase, st| {
